@@ -274,9 +274,58 @@ def control(ctx, base, rc):
     return True
 
 
+def render_error_cells(ctx):
+    """the error path is a function outside the render phase too: a render_error that requires `context` - given through
+    the error handler (at construction or set later), on a Route, or on an embedded application - is rejected when the
+    application is constructed; the same function without that parameter is accepted (control)"""
+    from clastic import Application, Route, Response, SubApplication
+    from clastic.errors import ErrorHandler
+
+    def ep():
+        return Response('ok')
+    for form in ('pos', 'kwonly', 'control'):
+        ns = {}
+        sig = {'pos': 'request, _error, context', 'kwonly': 'request, _error, *, context', 'control': 'request, _error'}[form]
+        exec('def render_error(%s, **kwargs):\n    return _error\n' % sig, ns)
+        exec('def method_render_error(self, %s, **kwargs):\n    return _error\n' % sig, ns)
+        H = type('ZqHandler_' + form, (ErrorHandler,), {'render_error': ns['method_render_error']})
+        builders = {
+            'handler': lambda: Application([Route('/x', ep)], error_handler=H()),
+            'handler-set-later': lambda: Application([Route('/x', ep)]).set_error_handler(H()),
+            'route': lambda: Application([Route('/x', ep, render_error=ns['render_error'])]),
+            'route-added': lambda: Application().add(Route('/x', ep, render_error=ns['render_error'])),
+            'embedding-handler': lambda: Application([SubApplication('/s', Application([Route('/x', ep)]))], error_handler=H()),
+        }
+        for via, make in sorted(builders.items()):
+            case = {'base': 'render-error', 'fault': {'f': 'context-required', 'who': 'render-error', 'via': via, 'form': form}}
+            ctx.case(case)
+            try:
+                make()
+                exc = None
+            except Exception as e:
+                exc = e
+            if form == 'control':
+                if exc is not None:
+                    ctx.mismatch('control-rejected', 'a render_error without `context` (%s) was rejected: %r' % (via, exc), case)
+                continue
+            ctx.event('fault-context-required-render-error')
+            if exc is None:
+                ctx.mismatch('accepted:context-required-render-error', 'a render_error requiring `context` (%s, %s parameter) was not rejected at construction'
+                             % (via, form), case)
+            elif not isinstance(exc, (NameError, TypeError)):
+                ctx.mismatch('not-NameError:context-required-render-error', 'a render_error requiring `context` (%s) raised %r' % (via, exc), case)
+            else:
+                ctx.nt(['render-error', via, form], sample=False)
+
+
 def run_matrix(spec, ctx):
     matrix = fault_matrix()
     ctx.exhaustive = True
+    if 0 in spec['bases']:
+        try:
+            render_error_cells(ctx)
+        except Exception as e:
+            ctx.classify_exc(e, {'base': 'render-error', 'fault': None}, 'matrix')
     ctx.note('fault matrix has %d cells x 2 (provider with / without its phase function) per base shape' % len(matrix))
     for bi in spec['bases']:
         base = BASES[bi]
@@ -337,6 +386,9 @@ def run_shard(spec, ctx):
 
 
 def replay(case, kind, ctx):
+    if isinstance(case, dict) and case.get('base') == 'render-error':
+        render_error_cells(ctx)
+        return
     if kind == 'matrix' or isinstance(case, dict):
         base = BASES[case['base']]
         if case.get('fault'):
